@@ -386,6 +386,11 @@ def rule_store(u, rep):
             rep.oblige(ok)
             if not ok:
                 rep.add("STORE", "serialize", "store does not serialize self exactly once into a buffered writer over the created file", b.loc())
+            # nothing but that serialize call puts bytes into the file (bytes no reader consumes survive truncation unnoticed)
+            extra = [e for e in p.events if (e[0] == "W" and e[2] in ("B", "Z", "F", "A")) or (e[0] == "Call" and e[1] == "std" and e[2] in ("write", "write_all", "write_fmt", "write_vectored", "set_len", "seek"))]
+            rep.oblige(not extra)
+            if extra:
+                rep.add("STORE", "extra-bytes", "store writes to the file outside the single serialize call (%s): the file is no longer exactly the serialized stream" % (extra[0][2] if extra[0][0] == "Call" else "stream write"), extra[0][-1] if extra[0][0] == "W" else extra[0][4])
         # errors of serialize propagate
         errs = [p for p in paths if outcome_of(u, p)[0] == "err"]
         ok = any(any(e[0] == "TryErr" and mentions(e[2], lambda x: x and x[0] == "call" and x[1] == "serialize") for e in p.events) for p in errs)
